@@ -7,10 +7,10 @@ property count.  Direct monitor of the property on the same kind of runs (harnes
 """
 from .. import refine, runs
 
-MODULE = "PyhmsVerif.Props.C01"
-THEOREMS = ['C01.C01_run', 'C01.step_logInBox', 'C01.rejection_inBox', 'C01.repaired_inBox', 'C17.repair_inBox']
+MODULE = 'PyhmsVerif.Props.C01Stored'
+THEOREMS = ['C01.C01_run', 'C01.step_logInBox', 'C01.rejection_inBox', 'C01.repaired_inBox', 'C17.repair_inBox', 'C01.C01_stored_in_box']
 LEVEL = 'proof'
-LEVEL_TEXT = 'Theorem: in every state reachable in the tree model every objective invocation lies in its level box (all configs, engines, seeds, event sequences); kernel theorems: apply_bounds result in box for every input and rounding function, rejection loop returns only in-box points. Tie: trace refinement (the model rejects an out-of-box invocation at that event) + bit-exact apply_bounds correspondence (C17) + direct monitor of all invocations, stored genomes and seeds.'
+LEVEL_TEXT = 'Theorem: in every state reachable in the tree model every objective invocation lies in its level box (all configs, engines, seeds, event sequences); kernel theorems: apply_bounds result in box for every input and rounding function, rejection loop returns only in-box points. Tie: trace refinement (the model rejects an out-of-box invocation at that event) + bit-exact apply_bounds correspondence (C17) + direct monitor of all invocations, stored genomes and seeds. NEW: C01_stored_in_box — in every reachable state every stored individual that was obtained from the objective lies inside the box of its deme level (it is backed by a logged invocation, C02_stored_is_objective_value, and every logged invocation is in the box, C01_run); the only other stored individuals are sentinel carriers of refused requests and a local deme starting point (its seed).'
 LEVEL_NOTE = 'Trusted: Lean kernel + standard axioms; the hand-written tree model (Tree.step) is tied to DemeTree.run by trace refinement on sampled runs (every run is re-executed by the model, dumps and sprout stages diffed); numerical engines (NumPy RNG, cma, scipy), objective values and user-defined stop-condition verdicts are environment; monitors trusted as failing-input search. EnvBox: points proposed by cma.ask, L-BFGS-B and np.random.uniform / qmc samplers are assumed in the box and monitored on every traced run.'
 TECHNIQUE = "trace refinement against the Lean tree model (Tree.step re-executes real runs) + direct monitors"
 RULE = "case = one traced run of a random configuration (1-3 levels, engine per level from the full list, every shipped GSC/LSC kind plus user-defined ones, both stock sprout mechanisms and user-composed chains, hibernation on/off, both directions, decimal boxes, optional cutoff/precision/stats wrappers, shared or per-level problems); non-trivial = run with >= 2 demes and >= 2 metaepochs; distinct by configuration hash"
